@@ -138,21 +138,54 @@ func gf8mul(c, x byte) byte {
 	return r
 }
 
-func gf8pow(a byte, e int) byte {
-	r := byte(1)
-	for i := 0; i < e; i++ {
-		r = gf8mul(a, r)
+// log / antilog tables of GF(2^8) mod 0x11D (generator 2), built once from
+// gf8mul; they serve the concrete-by-concrete products of the stub (matrix
+// coefficients, elimination), which would otherwise dominate large sets.
+var (
+	gf8exp   [255]byte
+	gf8log   [256]int
+	gf8ready bool
+)
+
+func gf8tables() {
+	if gf8ready {
+		return
 	}
-	return r
+	x := byte(1)
+	for i := 0; i < 255; i++ {
+		gf8exp[i] = x
+		gf8log[x] = i
+		x = gf8mul(2, x)
+	}
+	gf8ready = true
+}
+
+// gf8mulC multiplies two concrete elements.
+func gf8mulC(a, b byte) byte {
+	if a == 0 || b == 0 {
+		return 0
+	}
+	gf8tables()
+	return gf8exp[(gf8log[a]+gf8log[b])%255]
+}
+
+func gf8pow(a byte, e int) byte {
+	if e == 0 {
+		return 1
+	}
+	if a == 0 {
+		return 0
+	}
+	gf8tables()
+	return gf8exp[(gf8log[a]*e)%255]
 }
 
 func gf8inv(a byte) byte {
-	for x := 1; x < 256; x++ {
-		if gf8mul(a, byte(x)) == 1 {
-			return byte(x)
-		}
+	if a == 0 {
+		return 0
 	}
-	return 0
+	gf8tables()
+	return gf8exp[(255-gf8log[a])%255]
 }
 
 // ---- contract stub of reedsolomon.Encoder ----
@@ -300,13 +333,13 @@ func (s *stubRS) Reconstruct(shards [][]byte) error {
 		m[c], m[p] = m[p], m[c]
 		inv := gf8inv(m[c][c])
 		for k := range m[c] {
-			m[c][k] = gf8mul(inv, m[c][k])
+			m[c][k] = gf8mulC(inv, m[c][k])
 		}
 		for r := 0; r < s.d; r++ {
 			if r != c && m[r][c] != 0 {
 				f := m[r][c]
 				for k := range m[r] {
-					m[r][k] ^= gf8mul(f, m[c][k])
+					m[r][k] ^= gf8mulC(f, m[c][k])
 				}
 			}
 		}
